@@ -1,9 +1,15 @@
 from . import checks_codes as cc
 from . import checks_wire as cw
 from . import checks_api as ca
+from . import checks_conc as cn
+
+
+def _c18():
+    return cn.c18_finish(cn.c18())
+
 CHECKS = {
     "C01": cc.c01, "C02": cc.c02, "C03": cc.c03, "C04": cc.c04, "C05": cc.c05, "C06": cc.c06,
     "C07": cw.c07, "C08": cw.c08, "C09": cw.c09, "C10": cw.c10, "C11": cw.c11, "C12": cw.c12, "C20": cw.c20,
     "C19": cc.c19,
-    "C13": ca.c13, "C15": ca.c15, "C14": ca.c14, "C16": ca.c16, "C17": ca.c17,
+    "C13": ca.c13, "C15": ca.c15, "C18": _c18, "C14": ca.c14, "C16": ca.c16, "C17": ca.c17,
 }
